@@ -282,7 +282,11 @@ def h_prog(e, mnems, cfg):
     e.observe("fetched5", fetched5)
 
 
-HARNESSES = {"step": h_step, "reset": h_reset, "prog": h_prog}
+def h_config(e, **kw):
+    return cachestep.h_config(e, **kw)
+
+
+HARNESSES = {"step": h_step, "reset": h_reset, "prog": h_prog, "config": h_config}
 PCFG = [("lru", 0, 0, 1), ("lru", 1, 0, 2), ("plru", 0, 1, 2)]
 
 
@@ -298,6 +302,7 @@ def jobs(tier, seed):
                 continue
             out.append({"label": "step-%s-i%db%dw%d" % (repl, ib, bb, ways), "harness": "step", "args": {"repl": repl, "ib": ib, "bb": bb, "ways": ways}, "cost": 10 * ways * (1 << ib), "validate_every": 3})
             out.append({"label": "reset-%s-i%db%dw%d" % (repl, ib, bb, ways), "harness": "reset", "args": {"repl": repl, "ib": ib, "bb": bb, "ways": ways}, "cost": 5, "validate_every": 5})
+    out += cachestep.config_jobs("checks.c11")
     common = {"timeout_ms": 10000, "cut_on_undecided": True}
     i = 0
     for L in (1, 2):
